@@ -78,8 +78,10 @@ def check_codec_width(ctx: Ctx):
                 if key in seen:
                     continue
                 seen.add(key)
-                if evn.cont in ("py", "nps-valuebased", "f64"):
+                if evn.cont in ("py", "nps-valuebased"):
                     continue
+                # f64: a numpy uint64 scalar combined with a Python int is computed in float64
+                # (numpy 1.x promotion); integers are exact there only up to 2**53
                 cap = CAP.get(evn.cont)
                 construct = f"{f.qual}:dtype={IN}:{evn.op}:{norm(evn.node) if isinstance(evn.node, ast.AST) else ''}"[:200]
                 if cap is None:
